@@ -10,17 +10,17 @@ def repo_commits():
 CHECKS = {
  "C11": dict(
   level="exploration", design="§4 C11",
-  technique="runtime monitoring: the compiler binary built from the tree is run on random valid programs x 8 targets x option sets and on mutated / hostile texts; emitted files are judged by each language's own parser or type checker (go build + go vet, CPython 2.7/3 compile, javac parse, json.loads + descriptor shape, html.parser; Dart lexical only); exit status, crash signatures and watchdog for the negative side; fixed witness programs per known defect class",
+  technique="runtime monitoring: the compiler binary built from the tree is run on random valid programs x 8 targets x option sets and on mutated / hostile texts; emitted files are judged by each language's own parser or type checker (go build + go vet, CPython 2.7/3 compile, javac parse, json.loads + descriptor shape, html.parser; Dart lexical only); exit status, crash signatures and watchdog for the negative side; fixed witness programs per known defect class; multi-file invocations, generator option boundary values, javac / CPython / go build oracles per target",
   text="Core pool: every (program, target, option set) must exit 0 and every emitted file must be accepted by its language oracle. Negative pool (token delete/duplicate/swap, byte flips, truncation at every offset, unknown types, duplicate ids, cyclic typedefs/includes/extends, deep nesting, garbage): never a runtime panic / stack overflow / hang, never exit 0 for definitely-invalid input. Stress classes run in their own pools with per-class signatures.",
   note="Dart: no toolchain in the sandbox, lexical balance only. Java: parsed, not type-checked. Explicit panic(...) diagnostics recovered by main are diagnostics, only Go runtime error signatures count as crashes."),
  "C18": dict(
   level="exploration", design="§4 C18",
-  technique="runtime monitoring: ground truth by construction - edit scripts labelled from the documented catalogue are applied to random base programs at every applicable site, old/new are audited by the real binary (and the in-process auditor for volume), expected exit != 0 iff the script contains a breaking operator",
+  technique="runtime monitoring: ground truth by construction - edit scripts labelled from the documented catalogue are applied to random base programs at every applicable site, old/new are audited by the real binary (and the in-process auditor for volume), expected exit != 0 iff the script contains a breaking operator; planted pools for transitive typedef chains, same-short-name parents, diamond includes with dropped includes, prefix literal/variable clashes, kind changes and nested constant retypes",
   text="Every single catalogued edit at every site of each base program (exhaustive per program), pairs of one breaking + one compatible edit, random scripts of 2-6 edits, identical programs re-rendered in another style: audit fails iff a breaking operator is present, at any position, nesting depth, through typedefs and in included files.",
   note="Operator labels come from audit.go's requirement comments and the property text; edits outside both catalogues are not generated."),
  "C19": dict(
   level="exploration", design="§4 C19",
-  technique="runtime monitoring: repeated compilation of large random programs for every target/option set, comparing sha256 of every emitted file across repetitions, working directories, source roots (relative and absolute addressing) and -out locations",
+  technique="runtime monitoring: repeated compilation of large random programs for every target/option set, comparing sha256 of every emitted file across repetitions, working directories, source roots (relative and absolute addressing) and -out locations; working directories with decoy includes / inside the IDL tree, roots given through symlinks, -out directories holding other revisions or hand-written siblings, default output directory, in-process Compile sequences",
   text="Programs larger than the goldens in every map-backed dimension x 8 targets x option sets x 3-10 repetitions x 2-4 locations: the {relative path -> sha256} maps must be identical; a program accepted in one location and rejected in another is also a violation.",
   note="java generated_annotations=use (dated by design) excluded. Map-iteration nondeterminism only shows with some probability per run; repetition is the experiment."),
 
@@ -31,43 +31,43 @@ CHECKS = {
   note="Java and Dart are evaluated from source (String.format / interpolation model), not executed: unknown expression shapes are inconclusive. Reference reading of -delim (dots inside the prefix are kept) is stated in evidence."),
  "C09": dict(
   level="exploration", design="§4 C09",
-  technique="runtime monitoring: emitted client/processor over the leg matrix with a recording handler and wire tap; header maps compared at caller, handler and wire; op-id freshness by set membership; directed header-block-size sweep around buffer boundaries",
+  technique="runtime monitoring: emitted client/processor over the leg matrix with a recording handler and wire tap; header maps compared at caller, handler and wire; op-id freshness by set membership; directed header-block-size sweep around buffer boundaries; context-reuse sequences, reply-publish faults on the NATS server, non-positive timeouts, two-hop calls on cloned contexts",
   text="Random user header maps (empty, multi-byte, long values, names starting with _), correlation ids and timeouts on every transport x protocol leg plus NATS pub/sub: handler sees exactly the caller's headers / cid / timeout with a fresh op id, caller sees every response header the handler set, reply frames carry the request's op id and cid.",
   note="Timeouts below 5 s are not used as header values (calls could legitimately expire). STOMP pub/sub leg not covered by C09 (C07 covers STOMP)."),
  "C10": dict(
   level="exploration", design="§4 C10",
-  technique="runtime monitoring / differential: the real parser's tree dumped into the canonical form of an independent IDL model and compared, over random models x lexical renderings (all single-knob variations for fixed models), round trips, the -gen json descriptor as a second view, and fixed witness programs for Thrift-compatibility lexical classes",
+  technique="runtime monitoring / differential: the real parser's tree dumped into the canonical form of an independent IDL model and compared, over random models x lexical renderings (all single-knob variations for fixed models), round trips, the -gen json descriptor as a second view, and fixed witness programs for Thrift-compatibility lexical classes; multi-directory programs with same-named files, zero-padded numerals and other renderer knobs bisected per knob",
   text="150 (quick) to 5 000 (thorough) models x 4-8 renderings + 27 single-knob styles must parse to exactly the model; render(parse(text)) must parse back to the same model; 32 lexical classes are pinned by hand-written witnesses that run on every invocation (19 of them are known findings of the generated PEG parser).",
   note="Oracle = verif/idl canonical form + dumper. Type-level annotations are not modelled. pigeon is unavailable, so grammar defects are recorded as known findings rather than fixed."),
  "C12": dict(
   level="fault_enumeration", design="§4 C12",
-  technique="runtime monitoring: boundary sweeps of message sizes around every configured limit with MEASURED frame sizes (wire tap on an unlimited leg), outcome = pure function of (size, limit); canary call after every oversize outcome",
+  technique="runtime monitoring: boundary sweeps of message sizes around every configured limit with MEASURED frame sizes (wire tap on an unlimited leg), outcome = pure function of (size, limit); canary call after every oversize outcome; transport-level oversize histories with context reuse, one handler shared by differently limited HTTP clients, exact response-limit sweep, several large NATS replies in flight (delivery parked at a yield point)",
   text="HTTP request/response limits, NATS 1 MiB request/response/publish limits, STOMP and custom transport declared limits x payload shapes (large part first/middle/last/map) x 3 protocols x sizes L-8..L+8 and far points: oversize never transmitted and reported as REQUEST_TOO_LARGE / RESPONSE_TOO_LARGE, within-limit never rejected, client and server keep working.",
-  note="HTTP response band (L, L+4] is unconstrained (server compares the unframed buffer). Adapter legs have no limit."),
+  note="The HTTP response limit is judged on the unframed response (measured frame minus 4), which is what the handler compares. Adapter legs have no limit."),
  "C14": dict(
   level="exploration", design="§4 C14",
-  technique="runtime monitoring: reference-built request frames (schema-less Thrift writer) sent over raw connections to the simple, HTTP and NATS servers running the emitted processor; replies parsed independently and matched by op id and token; exactly-once counting with sentinel drains",
+  technique="runtime monitoring: reference-built request frames (schema-less Thrift writer) sent over raw connections to the simple, HTTP and NATS servers running the emitted processor; replies parsed independently and matched by op id and token; exactly-once counting with sentinel drains; unknown-method requests with huge names, aborting clients, HTTP 413 histories, user headers with empty names/values in every position; write-mutex-never-released attribution from dumps",
   text="Sequences of 5-200 mixed requests (good, unknown method, malformed args, handler error kinds, oneway) sequentially and concurrently (1-16 connections, 1-8 NATS workers, 1-32 HTTP posts) x 3 protocols: exactly one well-formed reply per two-way request with the right message/exception type, none for oneway, later requests unaffected.",
   note="After malformed arguments on a stream connection nothing more is asserted on that connection. The write mutex is only observable on the extra shared-output-protocol leg."),
  "C15": dict(
   level="fault_enumeration", design="§4 C15",
-  technique="runtime monitoring: fault enumeration on a scripted TTransport (every cut offset, every failing I/O index, all open/fail/reopen/close histories up to a bound, forced schedules via yield points) checked against a sequential reference model of the life cycle; goroutine-dump based deadlock criterion",
+  technique="runtime monitoring: fault enumeration on a scripted TTransport (every cut offset, every failing I/O index, all open/fail/reopen/close histories up to a bound, forced schedules via yield points) checked against a sequential reference model of the life cycle; goroutine-dump based deadlock criterion; NATS transport life-cycle histories over a TCP cut proxy; late Closed() fetches after failed reopen attempts",
   text="3-frame stream cut at every byte offset x 4 error kinds, k-th Read/Write/Flush/Open/Close failing, all histories over 7 letters up to length 4 (quick) / 5 (thorough) + random histories to length 30 under monitor policies: ends closed, exactly one close cause, monitor notified every time, reopen bounds respected, Open/Close/IsOpen always return.",
   note="Histories are sequential apart from the Close-vs-error race op and three forced schedules. Real loopback TSocket leg not implemented."),
  "C16": dict(
   level="exploration", design="§4 C16",
-  technique="runtime monitoring: tracing and rewriting middleware at every attachment point of emitted clients, processors, publishers and subscribers; recorded enter/exit traces compared with the trace folded from the declared order",
+  technique="runtime monitoring: tracing and rewriting middleware at every attachment point of emitted clients, processors, publishers and subscribers; recorded enter/exit traces compared with the trace folded from the declared order; concurrent and history phases (shared lists, repeated AddMiddleware), error text sizes up to 70000 bytes",
   text="Provider lists 0-4 x constructor lists 0-4 x AddMiddleware 0-2, observing and rewriting variants, every method kind (own, inherited, oneway, void, throwing) and every scope operation: each middleware exactly once, properly nested in the declared order, each seeing its neighbour's values, rewrites observed by the other side.",
   note="Pub/sub uses an in-process loopback transport pair. Method names compared case-insensitively on the first letter (client side sees the internal lower-case name)."),
 
  "C05": dict(
   level="exploration", design="§4 C05",
-  technique="runtime monitoring: hostile byte strings delivered to every receiving entry point of the real runtime (and emitted subscriber callbacks) in child processes, input logged before delivery, canary after each input, panic-trace and goroutine-dump based verdicts",
+  technique="runtime monitoring: hostile byte strings delivered to every receiving entry point of the real runtime (and emitted subscriber callbacks) in child processes, input logged before delivery, canary after each input, panic-trace and goroutine-dump based verdicts; peer-fault classes (STOMP ERROR frame / dropped connection) and reopen-the-same-transport canaries after session-poisoning inputs",
   text="~3 000 (quick) to ~10^5 (thorough) inputs per entry point (all short strings, size-field mutations incl. negative-as-int32 and larger-than-buffer, truncation at every offset, byte flips) x 8 entry points x 3 protocols; after every input a well-formed canary must be served. A crash is attributed to the last logged input and the first library frame of the panicking goroutine.",
   note="Structured inputs, not all byte strings. Memory amplification is excluded (children run under a 1 GiB data limit; inputs that exhaust it are counted, not judged). Trusted: embedded nats-server, own STOMP broker, reference codecs."),
  "C07": dict(
   level="exploration", design="§4 C07",
-  technique="runtime monitoring: emitted publishers/subscribers over an embedded nats-server and an own STOMP 1.2 broker; exactly-once / order / payload / header oracle over recorded handler invocations with unique message ids; raw malformed and foreign-topic injections; sentinel through a second subscriber; goroutine-dump based worker-death criterion",
+  technique="runtime monitoring: emitted publishers/subscribers over an embedded nats-server and an own STOMP 1.2 broker; exactly-once / order / payload / header oracle over recorded handler invocations with unique message ids; raw malformed and foreign-topic injections; sentinel through a second subscriber; goroutine-dump based worker-death criterion; shared-provider, back-pressure (ack vs forward wait cycle from goroutine dumps) and prompt-publish (delaying relay) sequences",
   text="Sequences of 50-2000 valid, malformed (12 kinds) and foreign-topic (4 kinds) messages x NATS (1-8 workers) and STOMP x 3 protocols: the subscriber log must equal the valid messages published between Subscribe and Unsubscribe (ordered for one worker), nothing published after Unsubscribe returned may start an invocation, a malformed message may not stop later deliveries.",
   note="In-flight messages at Unsubscribe are unconstrained. STOMP broker does exact destination matching, no redelivery. Worker-death verdicts come from goroutine dumps."),
 
@@ -84,7 +84,7 @@ CHECKS = {
 
  "C13": dict(
   level="exploration", design="§4 C13",
-  technique="runtime monitoring: wall-clock measurement of Request/Oneway against scripted stalling peers (adapter, NATS, HTTP) with a min-of-3 rule, error-class and registry-size assertions, goroutine-dump criterion for never-returning calls",
+  technique="runtime monitoring: wall-clock measurement of Request/Oneway against scripted stalling peers (adapter, NATS, HTTP) with a min-of-3 rule, error-class and registry-size assertions, goroutine-dump criterion for never-returning calls; clients with their own http.Client Timeout, publish-refused NATS cases, hang-up-then-silent HTTP peer, second call during a stalled write",
   text="Timeouts 1 ms..1 s (and sub-millisecond ones) x peer stall patterns (silent, late, blocked write, blocked flush, stalled HTTP body) x transports are executed three times each; a case violates only if even the fastest attempt overshoots T+max(300ms,T), returns the wrong error class, never returns (dump shows it parked in the library) or leaves a registration. Real-time property measured defensively.",
   note="Regressions smaller than the allowance are missed by design; NATS Oneway and the 503 path are excluded; machine load can only make attempts slower, which the min-of-3 rule absorbs."),
 
@@ -105,7 +105,7 @@ CHECKS = {
   note="Trusted: porcupine, the Go race detector (only reports races it observes), the harness' own recorder (mutex-guarded)."),
  "C20": dict(
   level="exploration", design="§4 C20",
-  technique="runtime monitoring: configuration sweep of a real FNatsServer on an embedded nats-server in child processes; exactly-once / reply-before-Serve-returns oracle over recorded request ids and event-handler counters; goroutine-dump based no-return criterion",
+  technique="runtime monitoring: configuration sweep of a real FNatsServer on an embedded nats-server in child processes; exactly-once / reply-before-Serve-returns oracle over recorded request ids and event-handler counters; goroutine-dump based no-return criterion; Stop from a worker goroutine, DrainTimeout / high-watermark / subject-count dimensions",
   text="Workers x queue length x burst x handler duration x Stop position (incl. queue-full and callback-blocked states forced by a gate handler) are swept; every request double-flushed before Stop must be processed exactly once with its reply published when Serve returns; later requests never. Held-on-observed.",
   note="Trusted: nats-server/nats.go ordering (PONG after queued MSGs) defining 'received before Stop', the recording processor. Requests racing Stop are only checked at-most-once."),
 
